@@ -222,6 +222,33 @@ func VerifC14BatchLimit() {
 	local := db.Pos()
 	rt.Check(local == prev, "harness: primary is at the end of its history")
 
+	if rt.Choose("continuous.stream", 2) == 1 {
+		// the continuous stream: it remembers what each upload reached instead of asking the service again.
+		// A commit lands while the first batch is being acknowledged, which triggers the next round.
+		var final ltx.Pos
+		svc.afterUpload = func() {
+			pos, ok := VerifCommitPage1(db)
+			rt.Check(ok, "harness: local commit while the first batch is acknowledged")
+			final = pos
+		}
+		w.store.BackupDelay = time.Millisecond
+		w.store.BackupFullSyncInterval = 0
+		rt.Ticks = 0
+		sctx := rt.NewEnvCtx(3)
+		serr := w.store.streamBackup(sctx, false)
+		rt.Check(serr == nil || sctx.Err() != nil, "the backup stream only ends because the node shuts down")
+		if serr != nil {
+			return
+		}
+		rt.Check(db.Pos() == final && final.TXID == local.TXID+1, "the primary is never rolled back because the service is merely behind")
+		got, _ := svc.PosMap(ctx)
+		rt.Check(db.HWM() <= got["db"].TXID, "published high-water mark never exceeds what the service acknowledged")
+		if rt.Ticks >= 1 {
+			rt.Check(got["db"] == final, "after a batch of 256 the next round continues from what the service acknowledged and reaches the primary's position")
+			rt.Reach("c14.batches.continuous")
+		}
+		return
+	}
 	rt.Check(w.store.SyncBackup(ctx) == nil, "first sync succeeds")
 	after1, _ := svc.PosMap(ctx)
 	rt.Check(after1["db"].TXID == 41+MaxBackupLTXFileN, "one sync uploads one contiguous batch of at most 256 files")
